@@ -14,3 +14,5 @@ for m in $src/m*; do
   MOLLI_REPO=$d timeout 1500 /verif/check $pid 2>&1 | tail -3
   rm -rf $d
 done
+# restore Gen/ snapshots and evidence to the /repo state
+timeout 1500 /verif/check $pid >/dev/null 2>&1; echo "restored Gen/evidence for $pid on /repo: rc=$?"
